@@ -34,6 +34,11 @@ func c07E2E(w *W) {
 	faultYields := w.Choose(simrt.SShape, 80)
 	faultDone := false
 	w.SetShape("reset", fault)
+	// rapid: a context issues its surveys back to back, abandoning each one
+	// while the respondents' answers to it are still on their way (they land
+	// in the middle of the cancellation); only the last survey is collected
+	rapid := w.Choose(simrt.SShape, 3) == 0
+	w.SetShape("rapid", rapid)
 	w.UseNet(NetCfg{Segment: w.Choose(simrt.SShape, 2) == 0, BufCap: []int{0, 64, 300}[w.Choose(simrt.SShape, 3)]})
 	sv := w.Sock("surveyor")
 	defer sv.Close()
@@ -171,6 +176,12 @@ func c07E2E(w *W) {
 					return n, fmt.Errorf("Send: %v", err)
 				}
 				injectFault(k)
+				if rapid && k < len(sizes[q.idx])-1 {
+					for y := (k*7 + q.idx*3) % 12; y > 0; y-- {
+						simrt.Yield()
+					}
+					continue
+				}
 				from := map[string]bool{}
 				for {
 					got, err := recv()
